@@ -845,7 +845,7 @@ fn do_to_dot<W: Write>(
                     let label = {
                         let mut buffer = String::new();
                         diagnostic_display_input(&mut buffer, input)?;
-                        buffer.replace('\"', "\\\"")
+                        buffer.replace('\\', "\\\\").replace('\"', "\\\"")
                     };
                     writeln!(
                         output,
@@ -871,7 +871,7 @@ fn do_to_dot<W: Write>(
                         writeln!(
                             output,
                             r#"{indentation}_{subdfa_identifiers_prefix}{} -> _{identifiers_prefix}{} [style="dashed"];"#,
-                            subdfa_accepting_state,
+                            subdfa_accepting_state + array_start,
                             to + array_start
                         )?;
                     }
